@@ -121,11 +121,13 @@ class Ctx:
         cmd = ['clang++-14', '-std=c++17', '-fsyntax-only', '-I' + os.path.join(REPO, 'src'), '-Xclang', '-ast-dump=json'] + \
             self.configs[cfg] + [os.path.join(ROOT, 'tu', tu + '.cpp')]
         t0 = time.time()
-        with open(path + '.tmp', 'wb') as out:
+        tmp = '%s.tmp%d' % (path, os.getpid())
+        with open(tmp, 'wb') as out:
             p = subprocess.run(cmd, stdout=out, stderr=subprocess.PIPE, timeout=600)
         if p.returncode != 0:
+            os.unlink(tmp)
             raise Undecided('clang failed on tu/%s.cpp [%s]: %s' % (tu, cfg, p.stderr.decode()[-2000:]))
-        os.replace(path + '.tmp', path)
+        os.replace(tmp, path)
         open(keyf, 'w').write(key)
         self.cmdlog.append(' '.join(cmd) + '  # %.1fs' % (time.time() - t0))
         return path
